@@ -95,6 +95,13 @@ impl TreeCfg {
                     target_size: 256,
                     ratio: 10.0,
                 },
+                // (32-byte table target, ratio 1) every level is always over its target: new levels open above a "full" Lmax and
+                // L(k) -> L(k+1) merges are chosen by score (pick_minimal_compaction)
+                LeveledParams {
+                    l0_threshold: 2,
+                    target_size: 32,
+                    ratio: 1.0,
+                },
             ],
             gen_keys: None,
             filter_verdicts: None,
